@@ -414,7 +414,7 @@ PROPS["C20"] = dict(
          "channels and unequal weights, or a degenerate integrand; distinct = distinct description; shim-MPI modes in C04",
     quick=dict(shards=8, cases=800),
     thorough=dict(shards=16, cases=40000),
-    floors={"run-layer": 0.4, "direct-layer": 0.2, "degenerate-integrand": 0.15, "many-channels": 0.03, "abbreviated-summary": 0.02,
+    floors={"run-layer": 0.4, "direct-layer": 0.2, "degenerate-integrand": 0.1, "many-channels": 0.02, "abbreviated-summary": 0.01,
             "positive-target": 0.1},
     level_text="differential across the four callback modes: the serialize() text of the returned checkpoint and of every "
                "checkpoint handed to the callback is byte-identical, silent modes print nothing, writing modes leave a file "
